@@ -247,13 +247,15 @@ func runStream(sc *SScenario) *SOutcome {
 			out.Gated = true
 			return out
 		}
-		// gate: the string variant itself must report rune-boundary offsets of the
+		// gate: the string views themselves must report rune-boundary offsets of the
 		// delivered text; a mid-rune offset is a defect of the search proper (pure,
 		// not this clause) and has no image in stream coordinates.
-		for _, off := range re.FindStringSubmatchIndex(text) {
-			if off > 0 && off < len(text) && !utf8.RuneStart(text[off]) {
-				out.Gated = true
-				return out
+		for _, loc := range [][]int{re.FindStringIndex(text), re.FindStringSubmatchIndex(text)} {
+			for _, off := range loc {
+				if off > 0 && off < len(text) && !utf8.RuneStart(text[off]) {
+					out.Gated = true
+					return out
+				}
 			}
 		}
 		if g, w := re.MatchReader(rd()), re.MatchString(text); g != w {
